@@ -19,6 +19,7 @@ package core
 //                                  the publisher stub's APISourceDescribe) while both reloads are processed;
 //                                  mode 2: as 1 with GOMAXPROCS(1).
 //   pub <name> | unpub <name> | read <name> <id> | unread <id>
+//   hotfields                      (corpus) the harness's list of hot-reloadable conf.Path fields
 //   <confset> = <k> {<name> <regex> <hot> <cold> [<groups of this conf's expression on u1> … <… on u_nU>]}…
 //        <regex> = Path.Regexp != nil as left by Validate; <hot>/<cold> index the value tuples of the
 //        hot-reloadable / other fields; groups (regex confs only) are ORACLE columns computed by calling
@@ -408,6 +409,14 @@ func verifC15CheckRegexFlags(specs []verifC15ConfSpec, ps map[string]*conf.Path)
 
 func verifC15Exec(op string) string {
 	f := strings.Fields(op)
+	if f[0] == "hotfields" { // the harness's reading of "hot-reloadable", compared with the fact extracted from the source
+		var names []string
+		for n := range verifC15HotFields {
+			names = append(names, n)
+		}
+		sort.Strings(names)
+		return strings.Join(names, ",")
+	}
 	if f[0] == "reset" {
 		verifC15Teardown()
 		w := &verifC15World{
@@ -852,6 +861,9 @@ func verifC15Class(op, impl string) string {
 	f := strings.Fields(impl)
 	if len(f) == 0 {
 		return w + "/empty"
+	}
+	if w == "hotfields" {
+		return w
 	}
 	if w == "reload2" {
 		w += "-m" + strings.SplitN(op, " ", 3)[1]
